@@ -53,6 +53,9 @@ class C18(Prop):
         for ci in range(1, nc):
             if rng.random() < 0.12:
                 steps.append({"t": "node", "id": ci, "health": rng.choice(["refuse", "eof", "blackhole"])})
+        if nc > 1 and rng.random() < 0.1:
+            # the primary itself is unreachable: writes must fail (or be lost), never go to a fallback cache
+            steps.append({"t": "node", "id": 0, "health": rng.choice(["refuse", "reset", "blackhole", "unreach"])})
         for _ in range(rng.randint(4, 12)):
             m = rng.choice(WRITES + READS + READS)
             key = rng.choice(keys)
@@ -138,6 +141,8 @@ class C18(Prop):
                     continue
                 want = self.intent(m, args, kwargs, wk)
                 got = [(c[1], c[2], c[3]) for c in cmds if c[0] == 0]
+                if health[0] != "up":
+                    continue          # unreachable primary: the write is lost or raises; it stayed local, checked above
                 if got != want:
                     out.append(viol("write-command-differs-from-call", rec, want=repr(want)[:200], got=repr(got)[:200]))
                 continue
@@ -209,7 +214,7 @@ class C18(Prop):
     def probe_names(self):
         return ("read-fell-through-to-last-cache", "read-answered-by-primary", "all-caches-miss",
                 "gets-fell-through", "multi-key-read-first-non-empty", "fallback-server-down-skipped",
-                "four-caches")
+                "four-caches", "write-while-primary-unreachable")
 
     def probes(self, scn, res):
         p = {}
@@ -217,6 +222,8 @@ class C18(Prop):
         if nc == 4:
             p["four-caches"] = 1
         for c in res.calls:
+            if c.step >= 0 and c.method in WRITES and c.extra.get("health", {}).get(0, "up") != "up":
+                p["write-while-primary-unreachable"] = 1
             if c.step < 0 or c.method not in READS:
                 continue
             nodes = sorted({x[0] for x in c.commands})
